@@ -245,7 +245,7 @@ pub fn plan(tier: Tier) -> Vec<Phase> {
         Phase { name: "large-files", count: large, exhaustive: false },
         Phase { name: "long-runs", count: runs, exhaustive: false },
         Phase { name: "unicode-heavy", count: unicode, exhaustive: false },
-        Phase { name: "keyword-splices", count: multi, exhaustive: false },
+        Phase { name: "keyword-splices", count: multi * 3, exhaustive: false },
     ]
 }
 
@@ -253,8 +253,50 @@ pub fn plan(tier: Tier) -> Vec<Phase> {
 /// of the tree under test (so that a keyword a change introduces is in the dictionary of the very run that
 /// checks that change) plus keywords of the formats as they occur in the wild. Sorted, hence the same in the
 /// parent and in every worker; replay files carry the spliced bytes themselves and do not need it.
-fn dictionary(family: &str) -> &'static Vec<Vec<u8>> {
-    static DICT: OnceLock<Vec<(String, Vec<Vec<u8>>)>> = OnceLock::new();
+pub struct Dict {
+    pub tokens: Vec<Vec<u8>>,
+    /// The token occurs in no file of the corpus: a keyword the parser knows and the corpus lacks.
+    pub novel: Vec<bool>,
+    /// 0 = upper-case letters, 1 = other letters, 2 = number-like, 3 = anything else
+    pub class: Vec<u8>,
+}
+
+fn word_class(w: &[u8]) -> u8 {
+    if !w.is_empty() && w.iter().all(|b| b.is_ascii_uppercase()) {
+        0
+    } else if !w.is_empty() && w.iter().all(|b| b.is_ascii_alphabetic()) {
+        1
+    } else if !w.is_empty() && w.iter().all(|b| b.is_ascii_digit() || matches!(b, b'.' | b'-' | b'+' | b'e' | b'E')) {
+        2
+    } else {
+        3
+    }
+}
+
+impl Dict {
+    /// Weighted choice: novel tokens count eight times; with `class`, three times in four only tokens of
+    /// that class (after trimming separators) are considered, if there are any.
+    fn pick(&self, r: &mut Prng, class: Option<u8>) -> Vec<u8> {
+        let same: Vec<usize> = match class {
+            Some(c) if r.chance(3, 4) => (0..self.tokens.len()).filter(|&i| self.class[i] == c).collect(),
+            _ => Vec::new(),
+        };
+        let pool: Vec<usize> = if same.is_empty() { (0..self.tokens.len()).collect() } else { same };
+        let total: u64 = pool.iter().map(|&i| if self.novel[i] { 8 } else { 1 }).sum();
+        let mut x = r.below(total.max(1));
+        for &i in &pool {
+            let w = if self.novel[i] { 8 } else { 1 };
+            if x < w {
+                return self.tokens[i].clone();
+            }
+            x -= w;
+        }
+        self.tokens[pool[0]].clone()
+    }
+}
+
+fn dictionary(family: &str, tier: Tier) -> &'static Dict {
+    static DICT: OnceLock<Vec<(String, Dict)>> = OnceLock::new();
     let all = DICT.get_or_init(|| {
         let wild: &[&str] = &[
             "AC", "ID", "NA", "DE", "DT", "CO", "BF", "BA", "BS", "CC", "RN", "RX", "RA", "RT", "RL", "DR", "OS", "OC", "SF", "ST", "SD", "HP", "HC", "TY", "VV", "XX", "//", "P0", "PO", "PE",
@@ -283,7 +325,18 @@ fn dictionary(family: &str) -> &'static Vec<Vec<u8>> {
             }
             v.sort();
             v.dedup();
-            out.push((fam.to_string(), v));
+            let files: Vec<&CorpusFile> = corpus(tier).files.iter().filter(|f| f.format.family() == fam).collect();
+            let occurs = |t: &[u8]| files.iter().any(|f| f.data.windows(t.len()).any(|w| w == t));
+            let novel: Vec<bool> = v.iter().map(|t| !occurs(t)).collect();
+            let class: Vec<u8> = v
+                .iter()
+                .map(|t| {
+                    let a = t.iter().position(|b| b.is_ascii_alphanumeric()).unwrap_or(0);
+                    let b = t.iter().rposition(|b| b.is_ascii_alphanumeric()).map(|p| p + 1).unwrap_or(t.len());
+                    word_class(&t[a..b.max(a)])
+                })
+                .collect();
+            out.push((fam.to_string(), Dict { tokens: v, novel, class }));
         }
         out
     });
@@ -435,6 +488,7 @@ pub fn generate(tier: Tier, phase: &str, idx: u64, r: &mut Prng) -> Sc {
                 }
             }
             Sc {
+                consume: None,
                 input: Input::Bytes { format: f.format, data: Blob(data), origin },
                 transport,
             }
@@ -543,6 +597,7 @@ pub fn generate(tier: Tier, phase: &str, idx: u64, r: &mut Prng) -> Sc {
                 transport.error_at = Some((r.usize_below(len + 1), *r.pick(&HardKind::ALL)));
             }
             Sc {
+                consume: None,
                 input: Input::Bytes {
                     format: f.format,
                     data: Blob(data),
@@ -558,12 +613,12 @@ pub fn generate(tier: Tier, phase: &str, idx: u64, r: &mut Prng) -> Sc {
             // new line made of a keyword followed by the tail of another line or by as many small numbers as
             // a neighbouring row has fields; numbers replaced by boundary labels (0, 1, width, width + 1, -1).
             let f = &c.files[r.usize_below(c.files.len())];
-            let dict = dictionary(f.format.family());
+            let dict = dictionary(f.format.family(), tier);
             let mut lines: Vec<Vec<u8>> = f.data.split_inclusive(|&b| b == b'\n').map(|l| l.to_vec()).collect();
             let n_mut = r.range(1, 3);
             let mut kinds = Vec::new();
             for _ in 0..n_mut {
-                if lines.is_empty() || dict.is_empty() {
+                if lines.is_empty() || dict.tokens.is_empty() {
                     break;
                 }
                 let li = r.usize_below(lines.len());
@@ -578,14 +633,17 @@ pub fn generate(tier: Tier, phase: &str, idx: u64, r: &mut Prng) -> Sc {
                         if ws.is_empty() {
                             continue;
                         }
-                        let (a, mut b) = ws[r.usize_below(ws.len())];
-                        if r.chance(1, 2) {
+                        // prefer words that are keywords themselves (keyword <-> keyword substitution)
+                        let kw: Vec<(usize, usize)> = ws.iter().copied().filter(|&(a, b)| dict.tokens.iter().any(|t| t.as_slice() == &line[a..b])).collect();
+                        let (a, mut b) = if !kw.is_empty() && r.chance(2, 3) { kw[r.usize_below(kw.len())] } else { ws[r.usize_below(ws.len())] };
+                        let class = word_class(&line[a..b]);
+                        if r.chance(1, 3) {
                             let end = body_len(&line);
                             while b < end && !(line[b].is_ascii_alphanumeric()) {
                                 b += 1;
                             }
                         }
-                        let tok = r.pick(dict).clone();
+                        let tok = dict.pick(r, Some(class));
                         line.splice(a..b, tok);
                         if clone {
                             lines.insert(li + 1, line);
@@ -600,7 +658,7 @@ pub fn generate(tier: Tier, phase: &str, idx: u64, r: &mut Prng) -> Sc {
                         let src = lines[r.usize_below(lines.len())].clone();
                         let ws = words_of(&src[..body_len(&src)]);
                         let from = ws.first().map(|w| w.1).unwrap_or(0);
-                        let mut line = r.pick(dict).clone();
+                        let mut line = dict.pick(r, None);
                         line.extend_from_slice(&src[from..]);
                         if !line.ends_with(b"\n") {
                             line.push(b'\n');
@@ -626,7 +684,7 @@ pub fn generate(tier: Tier, phase: &str, idx: u64, r: &mut Prng) -> Sc {
                             _ => fields,
                         };
                         let base: i64 = *r.pick(&[0i64, 0, 1, 1, 2, fields as i64, -1]);
-                        let mut line = r.pick(dict).clone();
+                        let mut line = dict.pick(r, None);
                         for j in 0..k {
                             line.extend_from_slice(&sep);
                             let v = if r.chance(1, 6) { *r.pick(&[0i64, -1, fields as i64 + 1, 255, 256, 65_536, i64::MAX]) } else { base + j as i64 };
@@ -660,6 +718,7 @@ pub fn generate(tier: Tier, phase: &str, idx: u64, r: &mut Prng) -> Sc {
                 transport.truncate = Some(r.usize_below(len + 1));
             }
             Sc {
+                consume: None,
                 input: Input::Bytes {
                     format: f.format,
                     data: Blob(data),
@@ -739,6 +798,7 @@ pub fn generate(tier: Tier, phase: &str, idx: u64, r: &mut Prng) -> Sc {
             let class = r.below(96);
             let transport = gen::gen_transport(r, &data, class);
             Sc {
+                consume: None,
                 input: Input::Bytes { format, data: Blob(data), origin: format!("unicode:{}", kind) },
                 transport,
             }
@@ -772,6 +832,7 @@ pub fn generate(tier: Tier, phase: &str, idx: u64, r: &mut Prng) -> Sc {
                 transport.chunks = vec![r.range(1000, 70_000)];
             }
             Sc {
+                consume: None,
                 input: Input::Bytes { format: f.format, data: Blob(data), origin: format!("{}:long-run", f.name) },
                 transport,
             }
@@ -810,6 +871,7 @@ pub fn generate(tier: Tier, phase: &str, idx: u64, r: &mut Prng) -> Sc {
                 }
             };
             Sc {
+                consume: None,
                 input: Input::Bytes { format, data: Blob(data), origin: format!("large:{}", kind) },
                 transport,
             }
@@ -834,6 +896,7 @@ pub fn generate(tier: Tier, phase: &str, idx: u64, r: &mut Prng) -> Sc {
             let class = r.below(96);
             let transport = gen::gen_transport(r, &data, class);
             Sc {
+                consume: None,
                 input: Input::Bytes { format, data: Blob(data), origin: "arbitrary:arbitrary".to_string() },
                 transport,
             }
